@@ -38,7 +38,9 @@ def run_scenario(sc):
         res["tables"] = canon(last["tables"])
         if sc.get("nat_sum"):
             try:
-                states = sorted(sc["cases"][-1]["states"])
+                # the contests of the run (a feed unit of a state outside the configuration makes one more)
+                st = last["tables"].get("state_data")
+                states = sorted(set(st["postal_code"])) if st is not None else sorted(sc["cases"][-1]["states"])
                 if sc.get("nat_sum_history"):
                     # earlier summaries on the same client (other weights / base / levels, then the same arguments): the last one must not care
                     last["client"].get_national_summary_votes_estimates({s: 1.0 for s in states}, 0, [0.6])
